@@ -18,7 +18,7 @@ RULE = ('directions: boundary grid (every 5 deg) and seeded-random points with h
 ASSUMPTIONS = ['float32 accuracy bound of the statement taken as 1e-6 rad (measured worst values are in the evidence)',
                'V2 reference: light plane through the rotation axis direction tilted by 30 deg, n(a).d = 0']
 REQUIRED = ['mon.v1_v2_v1', 'mon.v1_cart_v1', 'mon.v1_proj_v1', 'mon.v2_plane_reference', 'mon.pose_inverse',
-            'mon.pose_associativity', 'mon.pose_views', 'mon.solver_projection', 'mon.solver_zero_rotation', 'mon.ippe_axes']
+            'mon.pose_associativity', 'mon.pose_views', 'mon.solver_projection', 'mon.solver_zero_rotation', 'mon.ippe_axes', 'mon.pose_laws_after_history']
 
 H_LIM, V_LIM = math.radians(80), math.radians(55)
 T = math.pi / 6
@@ -202,6 +202,29 @@ def run_poses(desc, ctx):
         worst = max(worst, e8, e9, e10, e11)
         if max(e8, e9, e10, e11) > 1e-9:
             ctx.violate('pose:views-disagree-or-not-orthonormal', {'errors': [e8, e9, e10, e11]})
+        # the laws hold for a pose with a history too: every view and transform used, then (a shallow copy of) it
+        # rescaled the way the system scaler does, then the laws again on the rescaled pose
+        if _ % 3 == 0:
+            import copy
+            H = Pose(Ra.copy(), ta.copy())
+            H.inv_rotate_translate(x), H.rotate_translate(x), H.inv_rotate_translate_pose(B), H.rotate_translate_pose(B)
+            H.rot_vec, H.rot_quat, H.matrix_vec, H.translation, H.rot_matrix
+            G = copy.copy(H) if rnd.random() < 0.6 else H
+            sc = rnd.choice((2.0, 0.5, 1.25, rnd.uniform(0.1, 5.0)))
+            G.scale(sc)
+            ts = ta * sc
+            ctx.count('mon.pose_laws_after_history')
+            h1 = float(np.linalg.norm(G.rotate_translate(x) - (Ra @ x + ts)))
+            h2 = float(np.linalg.norm(G.inv_rotate_translate(x) - (Ra.T @ (x - ts))))
+            h3 = float(np.linalg.norm(G.inv_rotate_translate(G.rotate_translate(x)) - x))
+            Pg = G.inv_rotate_translate_pose(G.rotate_translate_pose(B))
+            h4 = float(np.linalg.norm(Pg.translation - tb) + np.linalg.norm(Pg.rot_matrix - Rb))
+            h5 = float(np.linalg.norm(G.matrix_vec[1] - ts) + np.linalg.norm(G.matrix_vec[0] - Ra) + np.linalg.norm(G.translation - ts))
+            h6 = float(np.linalg.norm(Rotation.from_rotvec(G.rot_vec).as_matrix() - Ra) +
+                       np.linalg.norm(Rotation.from_quat(G.rot_quat).as_matrix() - Ra))
+            if max(h1, h2, h3, h4, h5, h6) > 1e-9 * max(1.0, sc):
+                ctx.violate('pose:laws-broken-after-use-and-rescale', {'errors': [h1, h2, h3, h4, h5, h6], 'scale': sc,
+                                                                       'copied': G is not H})
     ctx.sample({'pose_triples': desc['n'], 'worst_error': worst})
 
 
